@@ -551,3 +551,32 @@ func inspectShallow(n ast.Node, f func(ast.Node) bool) {
 		return f(x)
 	})
 }
+
+// DominatingConds returns the branch conditions that control-dominate pt: for
+// every two-way branch b whose successor s has b as its only predecessor and
+// dominates pt's block, the condition (or its negation) holding on that edge.
+// Unlike facts these are not subject to kills: they describe the branch taken,
+// not what still holds.
+func (c *CFG) DominatingConds(pt Point) []*Term {
+	var out []*Term
+	for _, b := range c.live {
+		if len(b.Succs) != 2 || b.Succs[0] == b.Succs[1] {
+			continue
+		}
+		ct := c.CondTerm(b)
+		if ct == nil {
+			continue
+		}
+		for i, s := range b.Succs {
+			if !s.Live || len(c.preds[s]) != 1 || !c.BlockDominates(s, pt.B) {
+				continue
+			}
+			if i == 0 {
+				out = append(out, ct)
+			} else {
+				out = append(out, Negate(ct))
+			}
+		}
+	}
+	return out
+}
